@@ -294,6 +294,12 @@ pub fn c01(tier: &str) -> Report {
     let a_bound = alphabet(&[0, 1, u16::MAX - 1, u16::MAX], &ids);
     sweeps.push(run_sweep(&a_small, 4, "4 identities (3 generations of one address + another address) x incarnations {0,1,2}", &mut rep));
     sweeps.push(run_sweep(&a_bound, 4, "same identities x incarnations {0,1,65534,65535}", &mut rep));
+    // power-of-two boundaries of the u16 range (sign bit, byte boundary): an
+    // order computed on a narrower or shifted type shows up here
+    let a_half = alphabet(&[0, 0x7FFF, 0x8000, 0xFFFF], &ids);
+    sweeps.push(run_sweep(&a_half, 4, "same identities x incarnations {0,32767,32768,65535}", &mut rep));
+    let a_byte = alphabet(&[0x00FF, 0x0100, 0x7F00, 0xFF00], &ids[1..]);
+    sweeps.push(run_sweep(&a_byte, 4, "3 identities x incarnations {255,256,32512,65280}", &mut rep));
     if th {
         sweeps.push(run_sweep(&a_small, 5, "length 5, incarnations {0,1,2}", &mut rep));
         let one_addr = alphabet(&[0, 1, u16::MAX], &ids[..3]);
